@@ -495,6 +495,44 @@ def check(ctx):
                        f"requesting {late[0][1]!r} -- a column of the unrestricted result -- raises, while reading everything and selecting it works",
                        clause="reading with a column/key restriction equals reading everything and then selecting those")
     ctx.note(f"RESTR-raise: {n_rr} raise statement(s) depending on a restriction parameter examined")
+    # RESTR-names: the names a restriction is matched against are the names the unrestricted read RETURNS.  A reader that
+    # hands the restriction to a foreign parser and renames the parsed columns afterwards (header=False: pyarrow's f0, f1, ...
+    # become a, b, ...) has matched the request against names the caller never sees: the names of the full read are rejected,
+    # and the parser's own names select columns that then appear under other names.
+    ctx.rule("RESTR-names", "where the parsed columns are renamed, the restriction is applied to the renamed table, not handed to the parser")
+    n_rn = 0
+    for q in READERS:
+        fn = repo.functions.get(q)
+        if fn is None:
+            continue
+        for P in [p_ for p_ in RESTRICT if p_ in fn.kwonly + fn.params]:
+            renames = [c for _, c in calls_in(fn, False) if isinstance(c.func, ast.Attribute) and c.func.attr in ("rename_columns", "rename")]
+            if not renames:
+                continue
+            parser_args = []
+            for f_, c in calls_in(fn, False):
+                d = repo.dotted(f_, c.func) or ""
+                if not d.startswith(("pyarrow.", "csv.", "pandas.")):
+                    continue
+                for a_ in list(c.args) + [k.value for k in c.keywords]:
+                    if any(isinstance(y, ast.Name) and y.id == P for y in ast.walk(a_)):
+                        parser_args.append((c, a_))
+            for rn in renames:
+                n_rn += 1
+                cond_vars = sorted({y.id for k, t in facts_at(fn, rn) if not t.startswith("iter:")
+                                    for y in ast.walk(ast.parse(t, mode="eval")) if isinstance(y, ast.Name) and y.id in fn.kwonly + fn.params})
+                # the parser-side restriction is switched off whenever the rename happens: its argument depends on the same flag
+                still = [(c, a_) for c, a_ in parser_args if not any(isinstance(y, ast.Name) and y.id in cond_vars for y in ast.walk(a_))]
+                after = [c for _, c in calls_in(fn, False) if c.lineno > rn.lineno and isinstance(c.func, ast.Attribute) and c.func.attr in ("select", "select_columns")
+                         and any(isinstance(y, ast.Name) and y.id == P for a_ in c.args for y in ast.walk(a_))]
+                ok = not still and (bool(after) or not parser_args)
+                ctx.ob("RESTR-names", fn, f"{norm(rn)[:50]} under {cond_vars}", rn, ok,
+                       f"when the columns are renamed the parser sees no restriction and {P} is applied to the renamed table" if ok else
+                       f"{P} is handed to the parser ({norm(still[0][1])[:40] if still else '?'}) and the parsed columns are renamed afterwards "
+                       f"({norm(rn)[:40]}, under {cond_vars}): the request is matched against the parser's own names -- with header=False, "
+                       f"columns=['c', 'a'] (names of the full read) raises, and columns=['f2', 'f0'] returns those fields under the names a, b",
+                       clause="reading with a column/key restriction equals reading everything and then selecting those columns")
+    ctx.note(f"RESTR-names: {n_rn} rename(s) of parsed columns in readers with a restriction examined")
     # positions of requested names: <names>.index(x) finds the FIRST field of that name, while the unrestricted read
     # (dict(zip(names, row))) keeps the LAST -- with a duplicated header name the restricted read returns another field
     for q in READERS:
